@@ -29,6 +29,19 @@ def is_int_ty(t):
     return t is not None and t.get("k") == "prim" and t["n"] in INT_TYS
 
 
+SLICE_VIEW_IMPLS = ("<GenericArray<$0,$1> as core::convert::AsRef<[$0]>>::as_ref", "<GenericArray<$0,$1> as core::convert::AsMut<[$0]>>::as_mut",
+                    "<GenericArray<$0,$1> as core::borrow::Borrow<[$0]>>::borrow", "<GenericArray<$0,$1> as core::borrow::BorrowMut<[$0]>>::borrow_mut")
+
+# raw-pointer methods that are the free functions of core::ptr with the receiver as first argument (same argument order)
+PTR_METHOD_ALIASES = {
+    "core::ptr::mut_ptr::<impl *mut T>::write": "core::ptr::write", "core::ptr::mut_ptr::<impl *mut T>::write_unaligned": "core::ptr::write_unaligned",
+    "core::ptr::mut_ptr::<impl *mut T>::read": "core::ptr::read", "core::ptr::const_ptr::<impl *const T>::read": "core::ptr::read",
+    "core::ptr::mut_ptr::<impl *mut T>::read_unaligned": "core::ptr::read_unaligned", "core::ptr::const_ptr::<impl *const T>::read_unaligned": "core::ptr::read_unaligned",
+    "core::ptr::mut_ptr::<impl *mut T>::drop_in_place": "core::ptr::drop_in_place",
+    "core::ptr::mut_ptr::<impl *mut T>::copy_to": "core::ptr::copy", "core::ptr::const_ptr::<impl *const T>::copy_to": "core::ptr::copy",
+    "core::ptr::mut_ptr::<impl *mut T>::copy_to_nonoverlapping": "core::ptr::copy_nonoverlapping", "core::ptr::const_ptr::<impl *const T>::copy_to_nonoverlapping": "core::ptr::copy_nonoverlapping",
+}
+
 _INT_BITS = {"u8": 8, "u16": 16, "u32": 32, "u64": 64, "u128": 128, "usize": 64, "i8": 8, "i16": 16, "i32": 32, "i64": 64, "i128": 128, "isize": 64}
 
 
@@ -713,6 +726,13 @@ class Analysis:
             p = ptr()
             if p and len(targs) >= 2:
                 return ("P", p[1], p[2], te.length(targs[1]))
+        if cs.key in SLICE_VIEW_IMPLS and targs and is_ga(targs[0]):
+            # the crate's own AsRef / AsMut / Borrow / BorrowMut<[T]> for GenericArray: the full view of the receiver (what each returns is
+            # C02.D's / C13.B's obligation on its body)
+            p = ptr()
+            if p:
+                cs.no_effects = True
+                return ("P", p[1], p[2], te.length(adt_args(targs[0])[1]))
         if fn in ("core::ptr::const_ptr::<impl *const T>::add", "core::ptr::mut_ptr::<impl *mut T>::add",
                   "core::ptr::const_ptr::<impl *const T>::offset", "core::ptr::mut_ptr::<impl *mut T>::offset",
                   "core::ptr::const_ptr::<impl *const T>::sub", "core::ptr::mut_ptr::<impl *mut T>::sub"):
@@ -742,6 +762,13 @@ class Analysis:
             if p and p[3] is not None:
                 cs.no_effects = True
                 return ("O", ("P", p[1], p[2] + args[1][1] * te.size(targs[0]), None), ("get", cs.bb, args[1][1], p[3]))
+        if fn in ("core::slice::<impl [T]>::last", "core::slice::<impl [T]>::last_mut", "core::slice::<impl [T]>::first", "core::slice::<impl [T]>::first_mut") and len(args) == 1 and targs:
+            # Some(&s[len - 1]) / Some(&s[0]) exactly when the slice is not empty
+            p = ptr()
+            if p and p[3] is not None:
+                cs.no_effects = True
+                idx = (p[3] - Poly.const(1)) if "last" in fn else Poly.const(0)
+                return ("O", ("P", p[1], p[2] + idx * te.size(targs[0]), None), ("get", cs.bb, Poly.const(0), p[3]))
         if fn in ("core::slice::IterMut::<'a, T>::into_slice", "core::slice::Iter::<'a, T>::as_slice", "core::slice::IterMut::<'a, T>::as_slice") and args \
                 and isinstance(args[0], tuple) and len(args[0]) == 5 and args[0][:3] == ("V", "iter", "slice") \
                 and not any(t_["term"]["k"] == "call" and t_["term"]["f"].get("k") == "fn" and t_["term"]["f"]["def"] in (
@@ -933,6 +960,10 @@ class Analysis:
             return ("B", ("needs_drop", tstr(targs[0])))
         if fn in ("core::mem::ManuallyDrop::<T>::new", "core::mem::ManuallyDrop::<T>::into_inner"):
             return args[0]
+        if fn == "core::mem::replace" and len(args) == 2 and args[0][0] == "P" and not args[0][2].t:
+            p = args[0]
+            base, path = (p[1][1], p[1][2]) if p[1][0] == "field" else (p[1], ())
+            return self.read_cell(st, base, path, targs[0] if targs else None)
         if fn == "core::option::Option::<T>::is_some":
             p = ptr()
             inner = self.read_cell(st, p[1], (), None) if p and not p[2].t else args[0]
@@ -1057,6 +1088,15 @@ class Analysis:
             if p[0] == "P" and not p[2].t:
                 self.write_cell(st, p[1], (), cs.args[1])
                 return
+        if fn == "core::mem::replace" and len(cs.args) == 2 and cs.args[0][0] == "P" and not cs.args[0][2].t:
+            # `mem::replace(&mut x, v)` is `let old = x; x = v; old`: the store, recorded like an assignment through the reference
+            p = cs.args[0]
+            base, path = (p[1][1], p[1][2]) if p[1][0] == "field" else (p[1], ())
+            self.write_cell(st, base, path, cs.args[1])
+            if self._rec:
+                rec = {"site": (site[0], 10 ** 6), "cell": (base, path), "val": cs.args[1], "facts": st.facts, "at": cs.at, "rv": {"k": "use"}, "lhs": None}
+                (self.stores if base[0] != "local" else self.assigns).append(rec)
+            return
         bases = set()
         for a, o in zip(cs.args, cs.term["args"]):
             ot = self.operand_ty(o)
@@ -1084,7 +1124,9 @@ class Analysis:
                 del st.mem[k]  # the cell itself or a sub-cell
             elif up[: len(kp)] == kp:
                 # a stored parent aggregate: replace the affected component by an opaque value
-                nv = self._update_agg(st.mem[k], up[len(kp):], ("V", "havoc", site, (ub, up)))
+                # typed opaque for integer components (the same value the component's own cell gets below), so arithmetic keeps working
+                comp = self.init_value(("havoc", site, (ub, up)), self.cell_ty(ub, up), "havoc") if is_int_ty(self.cell_ty(ub, up)) else ("V", "havoc", site, (ub, up))
+                nv = self._update_agg(st.mem[k], up[len(kp):], comp)
                 if nv is not None:
                     # typed opaque for integer components so arithmetic keeps working
                     st.mem[k] = nv
@@ -1228,6 +1270,7 @@ class Analysis:
             args = [self.operand(st, a) for a in t["args"]]
             f = t["f"]
             fn = f["def"] if f["k"] == "fn" else ""
+            fn = PTR_METHOD_ALIASES.get(fn, fn)   # `p.write(v)` is `ptr::write(p, v)`: one name for the rules
             cs = CallSite(bb, t, args, st, fn, self.db)
             if f["k"] != "fn":
                 cs.fnval = self.operand(st, f["op"])
